@@ -31,6 +31,12 @@ Theorem C18_between_instants : forall (xs ys : list R) t y, increasing (@zipn RA
 Proof. exact interp1d_between. Qed.
 (** the exported table: the time column in the requested unit and one column per recorded key in dictionary order, each with
     one value per recorded instant *)
+(** the target handed to the interpolation is the requested time clamped into the simulated interval (D16 fix): within it, over the reals *)
+Theorem C18_target_clamped : forall t lo hi : R, (lo <= hi)%R ->
+  let t1 := if @ltb RA t lo then lo else t in
+  let t2 := if @ltb RA hi t1 then hi else t1 in
+  (lo <= t2 <= hi)%R.
+Proof. exact clamp_in_range. Qed.
 Theorem C18_export_shape : forall (A : Arith) times (e : @erec A) us cols, export times e us = Ok cols ->
   exists tcol rest, cols = ("time (" ++ u_time us ++ ")", tcol)%string :: rest /\ times_in times (u_time us) = Ok tcol /\
     map fst rest = map (fun p => column_name us (fst p)) (er_vars e) /\ Forall (fun c => length (snd c) = length tcol) rest.
